@@ -571,17 +571,58 @@ def path_exprs(func_node, pick, max_paths=256):
     # a conditional expression is two paths (the canonical form writes `if c: t = A else: t = B` as `t = A if c else B`)
     flat = []
 
-    def split(conds, e, env):
-        if isinstance(e, ast.IfExp):
-            t = subst(e.test, env)
-            c = _const_test(t)
-            if c is None:
-                split(conds + [(t, True)], e.body, env)
-                split(conds + [(t, False)], e.orelse, env)
-            else:
-                split(conds, e.body if c else e.orelse, env)
-        else:
+    import copy as _copy
+
+    class _Choose(ast.NodeTransformer):
+        """every conditional sub-expression on the given test is replaced by the chosen branch (nested defs / lambdas / comprehensions are left alone: evaluated later)"""
+
+        def __init__(self, key, take):
+            self.key, self.take = key, take
+
+        def visit_IfExp(self, n):
+            if ast.unparse(n.test) == self.key:
+                return self.visit(n.body if self.take else n.orelse)
+            return self.generic_visit(n)
+
+        def visit_Lambda(self, n):
+            return n
+
+        visit_ListComp = visit_SetComp = visit_DictComp = visit_GeneratorExp = visit_Lambda
+
+    def first_ifexp(e):
+        todo = [e]
+        while todo:
+            x = todo.pop(0)
+            if isinstance(x, ast.IfExp):
+                return x
+            if isinstance(x, (ast.Lambda, ast.ListComp, ast.SetComp, ast.DictComp, ast.GeneratorExp)):
+                continue
+            todo.extend(ast.iter_child_nodes(x))
+        return None
+
+    def split(conds, e, env, depth=0):
+        # (a conditional expression anywhere in the picked expression - `(A if c else B) * f(u if c else v)` - is two paths; all of them on one test go together)
+        if depth == 0:
+            e2 = subst(e, env)
+            if first_ifexp(e2) is None:
+                flat.append((conds, e, env))   # (nothing to split: the expression as picked, with the environment of its path)
+                return
+            e, env = e2, {}                      # (written out: the environment is used up)
+        x = first_ifexp(e) if depth < 6 else None
+        if x is None:
             flat.append((conds, e, env))
+            return
+        t = x.test
+        key = ast.unparse(t)
+        c = _const_test(t)
+        known = [pol for tt, pol in conds if ast.unparse(tt) == key]
+        if c is None and known:
+            c = known[0]
+        if c is None:
+            split(conds + [(t, True)], _Choose(key, True).visit(_copy.deepcopy(e)), env, depth + 1)
+            split(conds + [(t, False)], _Choose(key, False).visit(_copy.deepcopy(e)), env, depth + 1)
+        else:
+            split(conds, _Choose(key, bool(c)).visit(_copy.deepcopy(e)), env, depth + 1)
 
     for conds, e, env in out:
         split(conds, e, env)
